@@ -235,6 +235,20 @@ Theorem C17_node_order_refuted :
 Proof. exact node_order_refuted. Qed.
 Print Assumptions C17_node_order_refuted.
 
+(* statelessness across reconciles: on one manager, the k-th reconcile of ANY
+   history (nodes added / removed / relabelled, metrics changing) returns exactly
+   what a fresh manager returns on the k-th input alone *)
+Theorem C17_history_stateless : forall specs steps outs k ns m,
+  history specs steps = Some outs -> nth_error steps k = Some (ns, m) ->
+  exists r, nth_error outs k = Some r /\ assignments ns m specs = Some r.
+Proof. exact history_stateless. Qed.
+Print Assumptions C17_history_stateless.
+
+Theorem C17_history_length : forall specs steps outs,
+  history specs steps = Some outs -> length outs = length steps.
+Proof. exact history_length. Qed.
+Print Assumptions C17_history_length.
+
 (* --- the batched path as it was before the fix (F6): refuted --- *)
 Theorem C17_bounded_old_batched_refuted :
   exists nodes m specs l,
